@@ -27,7 +27,7 @@ CASE_TIMEOUT = 120
 S0 = simspace.START
 
 UNITS = ["probability", "rate", "number", "proportion", "nontransition", "fnparam"]
-INSTR = ["start", "startstop", "alloc", "capacity", "coverage", "tv_alloc"]
+INSTR = ["start", "startstop", "alloc", "capacity", "coverage", "coverage_high", "tv_alloc"]
 
 
 def model(unit, nprog, npop, ncomp, instr, dt, tight=False):
@@ -92,6 +92,8 @@ def model(unit, nprog, npop, ncomp, instr, dt, tight=False):
         ins["capacity"] = {"P1": 25.0}
     elif instr == "coverage":
         ins["coverage"] = {"P1": 0.35}
+    elif instr == "coverage_high":
+        ins["coverage"] = {"P1": 2.4}  # per year, above 1: a one-off program covers min(2.4*dt, 1) of the eligible people per step
     elif instr == "tv_alloc":
         ins["alloc"] = {"P1": {"t": [S0 + 1, S0 + 1.5, S0 + 2.5], "v": [100.0, 800.0, 50.0]}}
     spec["progs"] = dict(progs=progs, covouts=covouts, instr=ins)
@@ -108,10 +110,24 @@ def cases(tier):
             sp = model(unit, nprog, npop, ncomp, instr, dt)
             sp["c13"]["late"] = True
             yield sp
+        if unit != "probability" and instr in ("start", "alloc", "startstop"):
+            # the program set is a sampled copy (uncertainty on the outcomes): the oracle reads the outcomes the sampled set shows
+            sp = model(unit, nprog, npop, ncomp, instr, dt)
+            for co in sp["progs"]["covouts"]:
+                co["sigma"] = 0.05
+            sp["c13"]["sampled"] = True
+            yield sp
 
 
 def run_case(spec):
     w = World(spec)
+    if spec["c13"].get("sampled"):
+        np.random.seed(11)
+        w.progset = w.progset.sample()
+        for co in spec["progs"]["covouts"]:
+            live = w.progset.covouts[(co["par"], co["pop"])]
+            co["progs"] = {k: float(v) for k, v in live.progs.items()}
+            co["base"] = float(live.baseline)
     if spec["c13"].get("late"):
         # the model is built with plain start/stop instructions; the overwrites are put into the built model's instructions afterwards
         # (as an adjustment does during optimisation) and that same object is then integrated
